@@ -176,7 +176,7 @@ partial def complexContent (ctx : Ctx) (style : Nat) (f : SchemaFile) (d : Compl
       let k ← if ps.length > 1 then pure (if o.min == 0 && fuel == 0 then 0 else 1) else countFor o fuel
       let mut out : Out := {}
       for _ in [0:k] do
-        out := out.append (← particles ctx style f ps fuel)
+        out := out.append (← particles ctx style f ps fuel o.repeats)
       pure out
     | none => pure {}
   let mut attrs := battrs
@@ -190,16 +190,18 @@ partial def complexContent (ctx : Ctx) (style : Nat) (f : SchemaFile) (d : Compl
       valid := valid && ok
   pure (attrs, { xml := bkids.xml ++ kids.xml, valid := bkids.valid && kids.valid && valid })
 
-partial def particles (ctx : Ctx) (style : Nat) (f : SchemaFile) (ps : List Particle) (fuel : Nat) : M Out := do
+partial def particles (ctx : Ctx) (style : Nat) (f : SchemaFile) (ps : List Particle) (fuel : Nat) (rep : Bool) : M Out := do
   let mut out : Out := {}
   for p in ps do
-    out := out.append (← particle ctx style f p fuel)
+    out := out.append (← particle ctx style f p fuel rep)
   pure out
 
-partial def particle (ctx : Ctx) (style : Nat) (f : SchemaFile) (p : Particle) (fuel : Nat) : M Out := do
+/-- `rep`: some enclosing particle may repeat — only then may the member's type reach its own type again
+    (FiniteLayout), so out of depth such members are left out -/
+partial def particle (ctx : Ctx) (style : Nat) (f : SchemaFile) (p : Particle) (fuel : Nat) (rep : Bool) : M Out := do
   match p with
   | .elem n t o =>
-    let k ← countFor o fuel
+    let k ← if fuel == 0 && rep then pure 0 else countFor o fuel
     let pfx := prefixFor style f.tns
     let mut out : Out := {}
     for _ in [0:k] do
@@ -207,7 +209,7 @@ partial def particle (ctx : Ctx) (style : Nat) (f : SchemaFile) (p : Particle) (
       out := out.append { xml := "<" ++ pfx ++ ":" ++ n ++ attrs ++ ">" ++ c.xml ++ "</" ++ pfx ++ ":" ++ n ++ ">", valid := c.valid }
     pure out
   | .ref ns n o =>
-    let k ← countFor o fuel
+    let k ← if fuel == 0 && rep then pure 0 else countFor o fuel
     let mut out : Out := {}
     for _ in [0:k] do
       out := out.append (← globalElement ctx style ns n (fuel - 1))
@@ -216,7 +218,7 @@ partial def particle (ctx : Ctx) (style : Nat) (f : SchemaFile) (p : Particle) (
     let k ← if ps.length > 1 then pure (if o.min == 0 && (fuel == 0 || (← chance 1 3)) then 0 else 1) else countFor o fuel
     let mut out : Out := {}
     for _ in [0:k] do
-      out := out.append (← particles ctx style f ps fuel)
+      out := out.append (← particles ctx style f ps fuel (rep || o.repeats))
     pure out
   | .choice o ps =>
     if ps.isEmpty then pure {}
@@ -225,7 +227,7 @@ partial def particle (ctx : Ctx) (style : Nat) (f : SchemaFile) (p : Particle) (
       let mut out : Out := {}
       for _ in [0:k] do
         let b ← pick ps
-        out := out.append (← particle ctx style f b fuel)
+        out := out.append (← particle ctx style f b fuel (rep || o.repeats))
       pure out
 
 /-- an instance of the global element `(ns, n)` -/
